@@ -745,3 +745,20 @@ V("max-eq-bound-in-local-neutral", "neutral", ["C02", "C01", "C08"], P + "max_eq
   edits=[{"old": "    candidates_nb = 0\n", "new": "    lowest = y[MIN]\n    candidates_nb = 0\n"},
          {"old": "        if x[i, MAX] >= y[MIN]:", "new": "        if x[i, MAX] >= lowest:"},
          {"old": "        x[candidate_idx, MIN] = y[MIN]\n", "new": "        x[candidate_idx, MIN] = max(x[candidate_idx, MIN], lowest)\n"}])
+V("shaving-cursor-positional-slice", "break", ["C10", "C04"], "nucs/solvers/shaving_consistency_algorithm.py",
+  "decision_domains[decision_domains >= start_idx]", "decision_domains[start_idx:]", "the scan is given a positional slice: with unsorted decision domains the cursor goes backwards",
+  "shaving_consistency_algorithm")
+V("shaving-cursor-filter-rewritten-neutral", "neutral", ["C10", "C04", "C02"], "nucs/solvers/shaving_consistency_algorithm.py",
+  "decision_domains[decision_domains >= start_idx]", "decision_domains[decision_domains > start_idx - 1]", "the same value filter written with >")
+V("minimize-logs-result-unguarded", "break", ["C03"], BS, "        return self.optimize(variable_idx, decrease_max)\n",
+  "        solution = self.optimize(variable_idx, decrease_max)\n        logger.info(f\"The minimum is {solution[variable_idx]}\")\n        return solution\n",
+  "the optimum is logged without a None test: TypeError on an infeasible problem", "minimize")
+V("minimize-logs-result-guarded-neutral", "neutral", ["C03", "C11"], BS, "        return self.optimize(variable_idx, decrease_max)\n",
+  "        solution = self.optimize(variable_idx, decrease_max)\n        if solution is not None:\n            logger.info(f\"The minimum is {solution[variable_idx]}\")\n        return solution\n",
+  "the optimum is logged under a None test")
+V("getsolution-offset-by-domain-index", "break", ["C01", "C13", "C16"], "nucs/solvers/solver.py",
+  "    return shr_domains_stack[stacks_top[0], dom_indices_arr, MIN] + dom_offsets_arr\n",
+  "    return shr_domains_stack[stacks_top[0], dom_indices_arr, MIN] + dom_offsets_arr[dom_indices_arr]\n", "solution offsets looked up by shared-domain index", "get_solution")
+V("decrease-max-index-in-local-neutral", "neutral", ["C01", "C03", "C13", "C16"], "nucs/solvers/solver.py", None, None, "the shared-domain index held in a local",
+  within="def decrease_max", edits=[{"old": "    shr_domains_stack[stacks_top[0], dom_indices_arr[var_idx], MAX] = value - 1 - dom_offsets_arr[var_idx]\n",
+                                     "new": "    shr_dom = dom_indices_arr[var_idx]\n    shr_domains_stack[stacks_top[0], shr_dom, MAX] = value - 1 - dom_offsets_arr[var_idx]\n"}])
